@@ -12,15 +12,16 @@ META = {
     "rule": "every path x every (datum, multiplicity, order) combination x return_paths x every document; "
             "a case is one (path, modifiers, document) triple; non-trivial = the selection is non-empty and "
             "the datum modifier is defined on every selected node; pairs whose selection is empty are run "
-            "with every modifier combination too (must give [] / None)",
-    "assumptions": ["DataPath.any() is documented in the code as unimplemented and is not judged",
+            "with every eighth modifier combination (must give [] / None)",
+    "assumptions": ["paths of length >= 3 are run with the datum modifiers {none, length} only and on the F-deep + F-type documents only",
+                    "DataPath.any() is documented in the code as unimplemented and is not judged",
                     "documents on which the datum modifier is undefined for a selected node are executed "
                     "and counted but not judged (quantifier of C04)"],
     "bounds": {
-        "quick": {"paths": "length<=1 over 40 parts, length 2 over a 12-part sub-alphabet",
-                  "documents": "F-struct(3) + F-type flat/two-level"},
-        "thorough": {"paths": "length<=1 over 40 parts, length 2 over a 20-part sub-alphabet",
-                     "documents": "F-struct(4) + F-type flat/two-level"},
+        "quick": {"paths": "length<=1 over 40 parts, length 2 over a 12-part, length 3 over a 7-part sub-alphabet",
+                  "documents": "F-struct(3) + F-type flat/two-level + F-deep"},
+        "thorough": {"paths": "length<=1 over 40 parts, length 2 over 20 parts, length 3 over 7 parts, length 4 over 5 parts",
+                     "documents": "F-struct(4) + F-type flat/two-level + F-deep"},
     },
 }
 
@@ -33,13 +34,15 @@ for _d in T.DATUMS:
 
 
 def path_list(tier):
+    three = [p for p in gen.paths(3, gen.PARTS7) if len(p[1]) == 3]
     if tier == "quick":
-        return list(gen.paths(1, gen.PARTS)) + [p for p in gen.paths(2, gen.PARTS12) if len(p[1]) == 2]
-    return list(gen.paths(1, gen.PARTS)) + [p for p in gen.paths(2, gen.PARTS20) if len(p[1]) == 2]
+        return list(gen.paths(1, gen.PARTS)) + [p for p in gen.paths(2, gen.PARTS12) if len(p[1]) == 2] + three
+    four = [p for p in gen.paths(4, gen.BARE + [gen.PRIMS[0], gen.PRIMS[3]]) if len(p[1]) == 4]
+    return list(gen.paths(1, gen.PARTS)) + [p for p in gen.paths(2, gen.PARTS20) if len(p[1]) == 2] + three + four
 
 
 def family(tier):
-    return (gen.docs_struct(3) if tier == "quick" else gen.docs_struct(4)) + gen.docs_type2()
+    return (gen.docs_struct(3) if tier == "quick" else gen.docs_struct(4)) + gen.docs_type2() + gen.docs_deep()
 
 
 _pl = {}
@@ -49,6 +52,11 @@ def _paths(tier):
     if tier not in _pl:
         _pl[tier] = path_list(tier)
     return _pl[tier]
+
+
+def prepare(tier):
+    _paths(tier)
+    family(tier)
 
 
 def units(tier):
@@ -68,7 +76,7 @@ def run_unit(unit, tier):
 def replay(case):
     res = Result()
     p = case["path"]
-    combos = [(case["datum"], case["multi"], case["order"])] if "datum" in case else COMBOS
+    combos = [(case["datum"], case["multi"], case["order"])] if "datum" in case else None
     check_path(res, p, [case["doc"]], "replay", combos=combos)
     return list(res.violations.values())
 
@@ -79,7 +87,14 @@ def reach(doc, cp):
     return doc
 
 
-def check_path(res, p, docs, pi, combos=COMBOS):
+COMBOS_LONG = [c for c in COMBOS if c[0] in (None, "length")]
+
+
+def check_path(res, p, docs, pi, combos=None):
+    if combos is None:
+        combos = COMBOS if len(p[1]) <= 2 else COMBOS_LONG
+    if len(p[1]) > 2 and len(docs) > 1:
+        docs = gen.docs_deep() + gen.docs_type2()
     conc = ref.is_concrete(p)
     built = {}
     for (dat, mul, order) in combos:
@@ -105,7 +120,9 @@ def check_path(res, p, docs, pi, combos=COMBOS):
     for di, doc in enumerate(docs):
         d = fresh(doc)
         sel = ref.walk(p, d)
-        for combo, (pt, obj) in built.items():
+        for n, (combo, (pt, obj)) in enumerate(built.items()):
+            if not sel and n % 8 != 1 and len(built) > 8:
+                continue  # nothing selected: every modifier must give [] / None -- a sixth of the combinations is run
             if not check_case(res, pt, obj, combo, d, doc, sel, conc, (pi, di, combo)):
                 return
 
@@ -117,8 +134,8 @@ def check_case(res, pt, obj, combo, d, doc, sel, conc, key):
     case = {"path": T.path(pt[1]), "datum": dat, "multi": mul, "order": order, "doc": doc}
     # reference
     try:
-        want = ref.select(pt, d, with_paths=False)
-        want_p = ref.select(pt, d, with_paths=True)
+        want = ref.select(pt, d, with_paths=False, sel=sel)
+        want_p = ref.select(pt, d, with_paths=True, sel=sel)
         err = None
     except ref.DatumUndefined:
         err = "datum"
